@@ -1,6 +1,7 @@
 import PyPhysim.Model.Proto
 import PyPhysim.Model.C19
 import PyPhysim.Model.C19Cluster
+import PyPhysim.Model.C19State
 open PyPhysim.Proto PyPhysim.C19
 
 instance : NatCast Float := ⟨Float.ofNat⟩
@@ -64,46 +65,73 @@ def showPts (l : List (Pt Float)) : String := showList showPt l
 def parsePts? (s : String) : Option (List (Pt Float)) :=
   if s == "-" then some [] else parseFloatList? s >>= pairs
 
-def handle (toks : List String) : String :=
+/-- a query on one shape object: `verts`, `inside <pts>`, `border <ang> <ratio>`, `borderuser ..`,
+    `randuser <ratio> <draws>`, `adduser <pt>` -/
+def queryShape (sh : ShapeM) : List String → String
+  | ["verts"] => showPts sh.verts
+  | ["inside", q] => match parsePts? q with
+      | some qs => showList (fun p => if sh.inside p then "1" else "0") qs
+      | none => "bad-op"
+  | ["border", ang, ratio] => match parseFloat? ang, parseFloat? ratio with
+      | some ang, some ratio => match sh.border (Circ.cisDeg ang) ratio with
+          | .ok p => showPt p
+          | .error e => "error:" ++ toString e
+      | _, _ => "bad-op"
+  | ["borderuser", ang, ratio] => match parseFloat? ang, parseFloat? ratio with
+      | some ang, some ratio => match validateRatio ratio 1e-15 with
+          | .error e => "error:" ++ toString e
+          | .ok r => match sh.border (Circ.cisDeg ang) r with
+              | .ok p => showPt p
+              | .error e => "error:" ++ toString e
+      | _, _ => "bad-op"
+  | ["randuser", ratio, us] => match parseFloat? ratio, parsePts? us with
+      | some ratio, some us => match addRandomUser sh.inside sh.pos sh.radius ratio us with
+          | some (p, n) => showPt p ++ " " ++ toString n
+          | none => "none"
+      | _, _ => "bad-op"
+  | ["adduser", q] => match parsePts? q with
+      | some [p] => match addUser sh.inside p with
+          | .ok p => showPt p
+          | .error e => "error:" ++ toString e
+      | _ => "bad-op"
+  | _ => "bad-op"
+
+/-- the shape a stored cell state answers queries with -/
+def shapeOfState (st : CellState Float) : ShapeM :=
+  match st.kind with
+  | .square => rectShape { pos := st.pos, lower := st.lower, upper := st.upper } st.radius (Circ.cisDeg st.rot)
+  | _ => polyShape st.pos st.radius (stVerts st)
+
+def parseKind? : String → Option CellKind
+  | "hex" => some .hex | "sec3" => some .sec3 | "square" => some .square | _ => none
+
+/-- `P:x:y` / `R:r` / `T:θ` act on the cell, `W:x:y` moves the wrapping `CellWrap` -/
+def parseOps? (s : String) : Option (List (Sum (CellOp Float) (Pt Float))) :=
+  if s == "-" then some [] else
+  (fields s ",").mapM (fun t => match t.splitOn ":" with
+    | ["P", x, y] => do let x ← parseFloat? x; let y ← parseFloat? y; some (.inl (.setPos (x, y)))
+    | ["R", r] => do let r ← parseFloat? r; some (.inl (.setRadius r))
+    | ["T", t] => do let t ← parseFloat? t; some (.inl (.setRot t))
+    | ["W", x, y] => do let x ← parseFloat? x; let y ← parseFloat? y; some (.inr (x, y))
+    | _ => none)
+
+/-- initial state: `hex|sec3 px py R rot`, `square px py side rot` (the constructor's arguments) -/
+def initState (k : CellKind) (p : Pt Float) (size rt : Float) : CellState Float :=
+  match k with
+  | .square => freshSquare p size rt
+  | k => fresh k p size rt
+
+def queryState (st : CellState Float) : List String → String
+  | ["state"] => showPt st.pos ++ " " ++ showFloat st.radius ++ " " ++ showFloat st.rot
+  | ["secinfo"] =>
+      showList (fun (s : Sector Float) => showPt s.pos ++ "," ++ showFloat s.radius ++ "," ++ showFloat s.rot) st.secs ";"
+  | "sector" :: k :: q => match k.toNat? >>= (st.secs[·]?) with
+      | some s => queryShape (shapeOfState (sectorState s)) q
+      | none => "error:RuntimeError"
+  | q => queryShape (shapeOfState st) q
+
+def handleOther (toks : List String) : String :=
   match toks with
-  | "verts" :: rest => match parseShape rest with
-      | some (sh, []) => showPts sh.verts
-      | _ => "bad-op"
-  | "inside" :: rest => match parseShape rest with
-      | some (sh, [q]) => match parsePts? q with
-          | some qs => showList (fun p => if sh.inside p then "1" else "0") qs
-          | none => "bad-op"
-      | _ => "bad-op"
-  | "border" :: rest => match parseShape rest with
-      | some (sh, [ang, ratio]) => match parseFloat? ang, parseFloat? ratio with
-          | some ang, some ratio => match sh.border (Circ.cisDeg ang) ratio with
-              | .ok p => showPt p
-              | .error e => "error:" ++ toString e
-          | _, _ => "bad-op"
-      | _ => "bad-op"
-  | "borderuser" :: rest => match parseShape rest with
-      | some (sh, [ang, ratio]) => match parseFloat? ang, parseFloat? ratio with
-          | some ang, some ratio => match validateRatio ratio 1e-15 with
-              | .error e => "error:" ++ toString e
-              | .ok r => match sh.border (Circ.cisDeg ang) r with
-                  | .ok p => showPt p
-                  | .error e => "error:" ++ toString e
-          | _, _ => "bad-op"
-      | _ => "bad-op"
-  | "randuser" :: rest => match parseShape rest with
-      | some (sh, [ratio, us]) => match parseFloat? ratio, parsePts? us with
-          | some ratio, some us => match addRandomUser sh.inside sh.pos sh.radius ratio us with
-              | some (p, n) => showPt p ++ " " ++ toString n
-              | none => "none"
-          | _, _ => "bad-op"
-      | _ => "bad-op"
-  | "adduser" :: rest => match parseShape rest with
-      | some (sh, [q]) => match parsePts? q with
-          | some [p] => match addUser sh.inside p with
-              | .ok p => showPt p
-              | .error e => "error:" ++ toString e
-          | _ => "bad-op"
-      | _ => "bad-op"
   | ["cluster", "hex", n, r, rt, px, py] =>
       match n.toNat?, parseFloat? r, parseFloat? rt, parseFloat? px, parseFloat? py with
       | some n, some r, some rt, some px, some py =>
@@ -130,5 +158,32 @@ def handle (toks : List String) : String :=
           showPts ((us.zip vs).map (fun uv => ppRectPoint w h uv.1 uv.2))
       | _, _, _, _ => "bad-op"
   | _ => "bad-op"
+
+def handle (toks : List String) : String :=
+  match toks with
+  | "cellhist" :: "wrap" :: wx :: wy :: k :: px :: py :: size :: rt :: ops :: q =>
+      match parseFloat? wx, parseFloat? wy, parseKind? k, parseFloat? px, parseFloat? py, parseFloat? size,
+            parseFloat? rt, parseOps? ops with
+      | some wx, some wy, some k, some px, some py, some size, some rt, some ops =>
+          let (w, st) := ops.foldl (fun (acc : Pt Float × CellState Float) o => match o with
+            | .inl op => (acc.1, step acc.2 op)
+            | .inr wp => (wp, acc.2)) ((wx, wy), initState k (px, py) size rt)
+          let ws : WrapState Float := { pos := w, inner := st }
+          queryShape (polyShape ws.pos st.radius (wrapVerts ws)) q
+      | _, _, _, _, _, _, _, _ => "bad-op"
+  | "cellhist" :: k :: px :: py :: size :: rt :: ops :: q =>
+      match parseKind? k, parseFloat? px, parseFloat? py, parseFloat? size, parseFloat? rt, parseOps? ops with
+      | some k, some px, some py, some size, some rt, some ops =>
+          let st := ops.foldl (fun st o => match o with | .inl op => step st op | .inr _ => st)
+            (initState k (px, py) size rt)
+          queryState st q
+      | _, _, _, _, _, _ => "bad-op"
+  | op :: rest =>
+    if op == "verts" || op == "inside" || op == "border" || op == "borderuser" || op == "randuser" || op == "adduser" then
+      match parseShape rest with
+      | some (sh, args) => queryShape sh (op :: args)
+      | none => "bad-op"
+    else handleOther toks
+  | [] => "bad-op"
 
 def main : IO Unit := runDriver handle
